@@ -34,13 +34,13 @@ def generate(rng, run, tier):
         plan["source"] = "model"
     else:
         physical = rng.choice(["TRIPLES", "QUADS", "GRAPHS"])
+        entry = rng.choice(["frames_gen", "frames_sink", "flat_file", "container_serialize"])
+        if physical == "GRAPHS" and entry == "flat_file":
+            physical = "QUADS"
         stmts, flags, sizes, pools = c01.gen_workload(rng, physical, rdflib_safe=True, max_n=20)
         mp, mn, md = c01.fit_tables(rng, stmts, [], sizes, physical)
         if md == 0 and W.has_datatypes(stmts):
             md = max(1, W.max_needs(stmts)[2])
-        entry = rng.choice(["frames_gen", "frames_sink", "flat_file", "container_serialize"])
-        if physical == "GRAPHS" and entry == "flat_file":
-            physical = "QUADS"
         cfg = nodes.default_cfg(integration="generic", physical=physical, logical=1 if physical == "TRIPLES" else 2,
                                 delimited=True, frame_size=rng.choice([1, 3, 250]), max_names=mn, max_prefixes=mp,
                                 max_datatypes=md, generalized=False, rdf_star=False, entry=entry)
